@@ -599,6 +599,29 @@ def check_values(ctx, values):
                 ctx.violation("alt-entry-differs", "%s(value #%d) differs from the value at %s" % (
                     "loadz(dumpz" if name == "z" else "load_persistant(store_persistant", idx, diff[0]))
                 return "violation"
+        # the stream form of load_persistant: two records written back to back are read one after the other
+        try:
+            st_ = io.BytesIO()
+            v.store_persistant(st_)
+            n1 = st_.tell()
+            v.store_persistant(st_)
+            st_.write(b"\x00\x0f")
+            st_.seek(0)
+            d1 = Serializable.load_persistant(st_)
+            p1 = st_.tell()
+            d2 = Serializable.load_persistant(st_)
+            p2 = st_.tell()
+        except HARNESS_EXC:
+            raise
+        except Exception as ex:  # noqa
+            ctx.violation("alt-entry-raised", "two persistent records of value #%d in one stream: %s: %s" % (idx, type(ex).__name__, str(ex)[:200]))
+            return "violation"
+        if (p1, p2) != (n1, 2 * n1):
+            ctx.violation("consumed-bytes", "load_persistant(stream): records of %d bytes each, stream position %d after the first and %d after the second" % (n1, p1, p2))
+            return "violation"
+        if first_diff(exp, norm(d1, None, True)) is not None or first_diff(exp, norm(d2, None, True)) is not None:
+            ctx.violation("alt-entry-differs", "load_persistant(stream) of value #%d differs from the value" % idx)
+            return "violation"
         ctx.label("alt-entry-points-checked")
     return "ok"
 
